@@ -862,6 +862,10 @@ func (nfs *Nfs) NFSPROC3_FSINFO(args nfstypes.FSINFO3args) nfstypes.FSINFO3res {
 	var reply nfstypes.FSINFO3res
 	util.DPrintf(1, "NFS FsInfo %v\n", args)
 	op := fstxn.Begin(nfs.fsstate)
+	if op.GetInodeFh(args.Fsroot) == nil {
+		errRet(op, &reply.Status, nfstypes.NFS3ERR_STALE)
+		return reply
+	}
 	reply.Resok.Rtmax = 16 * 4096
 	reply.Resok.Rtmult = 4096
 	reply.Resok.Rtpref = reply.Resok.Rtmax
@@ -878,11 +882,16 @@ func (nfs *Nfs) NFSPROC3_FSINFO(args nfstypes.FSINFO3args) nfstypes.FSINFO3res {
 func (nfs *Nfs) NFSPROC3_PATHCONF(args nfstypes.PATHCONF3args) nfstypes.PATHCONF3res {
 	var reply nfstypes.PATHCONF3res
 	util.DPrintf(1, "NFS PathConf %v\n", args)
-	reply.Status = nfstypes.NFS3_OK
+	op := fstxn.Begin(nfs.fsstate)
+	if op.GetInodeFh(args.Object) == nil {
+		errRet(op, &reply.Status, nfstypes.NFS3ERR_STALE)
+		return reply
+	}
 	reply.Resok.Name_max = nfstypes.Uint32(dir.MAXNAMELEN)
 	reply.Resok.No_trunc = true
 	reply.Resok.Linkmax = 1
 	reply.Resok.Case_preserving = true
+	commitReply(op, &reply.Status)
 	return reply
 }
 
